@@ -319,6 +319,56 @@ def _value_referenced(p) -> Set[str]:
     return _VALREF[k]
 
 
+_PURE_BUILTINS = {"range", "len", "int", "float", "abs", "min", "max", "sum", "zip", "enumerate", "tuple", "list", "dict", "set",
+                  "isinstance", "sorted", "reversed", "round", "complex", "bool", "str", "divmod", "slice", "any", "all"}
+_PURE_METHODS = {"reshape", "ravel", "conj", "conjugate", "dot", "transpose", "astype", "copy", "sum", "flatten", "squeeze",
+                 "swapaxes", "mean", "trace", "diagonal", "item", "tolist", "any", "all", "max", "min", "argmax", "argmin",
+                 "argsort", "cumsum", "prod", "std", "var", "round", "clip", "nonzero", "take", "repeat", "view", "get",
+                 "keys", "values", "items", "index", "count", "split", "join", "format", "startswith", "endswith"}
+_IMPURE_ARRAY_FUNCS = {"copyto", "put", "place", "putmask", "fill_diagonal", "save", "savez", "savetxt", "load", "loadtxt",
+                       "seterr", "put_along_axis", "fromfile", "tofile", "memmap", "shuffle", "seed"}
+
+
+def _effect_free(p, fi, depth: int = 0) -> bool:
+    """Conservative: the function only binds local names and calls array-library / builtin functions known to be pure
+    (or package functions that are effect-free themselves).  Any store into a subscript or attribute, any in-place
+    operator on a parameter, any other call (print, file / MPI / h5py objects, unknown methods) makes it not effect-free."""
+    if fi is None or depth > 2 or isinstance(fi.node, ast.Lambda) or fi.is_abstract:
+        return False
+    params = {q.name for q in fi.params}
+    mod = p.modules[fi.module]
+    for n_ in ast.walk(fi.node):
+        if isinstance(n_, (ast.Global, ast.Nonlocal, ast.Yield, ast.YieldFrom, ast.Await, ast.With, ast.Raise, ast.Try, ast.Delete)):
+            return False
+        if isinstance(n_, (ast.Subscript, ast.Attribute)) and isinstance(getattr(n_, "ctx", None), (ast.Store, ast.Del)):
+            return False
+        if isinstance(n_, ast.AugAssign) and not (isinstance(n_.target, ast.Name) and n_.target.id not in params):
+            return False
+        if isinstance(n_, (ast.FunctionDef, ast.AsyncFunctionDef, ast.ClassDef)) and n_ is not fi.node:
+            return False
+        if isinstance(n_, ast.Call):
+            if any(k_.arg == "out" for k_ in n_.keywords):
+                return False
+            dn = dotted(n_.func)
+            r_ = p.resolve_name(mod, dn) if dn else None
+            if r_ is not None and r_[0] == "ext":
+                q_ = r_[1]
+                if q_.split(".")[0] in ("numpy", "jax", "math", "scipy", "functools", "operator", "itertools") and \
+                        q_.split(".")[-1] not in _IMPURE_ARRAY_FUNCS and ".random." not in q_ and not q_.startswith("numpy.random"):
+                    continue
+                return False
+            if r_ is not None and r_[0] == "func":
+                if _effect_free(p, p.functions.get(r_[1]), depth + 1):
+                    continue
+                return False
+            if isinstance(n_.func, ast.Name) and n_.func.id in _PURE_BUILTINS and n_.func.id not in params:
+                continue
+            if isinstance(n_.func, ast.Attribute) and n_.func.attr in _PURE_METHODS and r_ is None:
+                continue
+            return False
+    return True
+
+
 def _more_pitfalls(ctx, prop_id, files, by_name):
     """DISCARD-1, PARAM-1, TRI-1 over the files the property is anchored in."""
     p = ctx.p
@@ -342,6 +392,13 @@ def _more_pitfalls(ctx, prop_id, files, by_name):
                         # a method of some other object (list.append, comm.Barrier, fh5.create_dataset ...)
                         if not cands or not all(c.cls for c in cands):
                             continue
+                    if cands and isinstance(f_, ast.Name) and all(c.cls is None for c in cands) and \
+                            not all(_is_jitted(c) for c in cands) and all(
+                            _effect_free(p, c) for c in cands):
+                        ctx.ob("DISCARD-2", f"{fi.qualname}: the call of {nm} has an effect", False,
+                               f"`{ast.unparse(st)[:70]}` is a bare call statement: {cands[0].qualname} neither stores into its "
+                               f"arguments nor does anything else observable (it only binds local names and returns), so the "
+                               f"call changes nothing and the result is dropped", fi, st.lineno, alias_exact=True)
                     if cands and all(_is_jitted(c) and _returns_value_everywhere(c) for c in cands):
                         ctx.ob("DISCARD-1", f"{fi.qualname}: the value returned by the jit-compiled {nm} is used", False,
                                f"`{ast.unparse(st)[:70]}` is a bare call statement: {cands[0].qualname} is jit-compiled (pure) and "
